@@ -58,6 +58,12 @@ VARIANTS = {
     "o2_dd": ((2, 16), None, None, None, (("stationId", "desc"), ("generationDeltaTime", "desc"))),
     "o2_ad": ((2, 16), None, None, None, (("stationId", "asc"), ("generationDeltaTime", "desc"))),
     "o2_da": ((2, 16), None, None, None, (("stationId", "desc"), ("generationDeltaTime", "asc"))),
+    # simultaneous subscriptions with EQUAL filters (None / the same statement) but different subscribed types
+    "t_cam": ((2,), None, None, None, None),
+    "t_vam": ((16,), None, None, None, None),
+    "t_both": ((2, 16), None, None, None, None),
+    "t_cam_f": ((2,), ("header.stationId", "!=", 1001), None, None, None),
+    "t_vam_f": ((16,), ("header.stationId", "!=", 1001), None, None, None),
     "f2_or": ((2, 16), (S1, "or", S2), None, None, None),
     "f2_and": ((2, 16), (S1, "and", S2), None, None, None),
     "f2_or_m2": ((2, 16), (S1, "or", S2), None, 2, (("stationId", "asc"),)),     # multiplicity counts matches of either statement
@@ -443,6 +449,10 @@ def parts(tier):
         name="filters_order", setup=base + (("regc", A), ("regc", B)), max_subs=2, max_adds=4 if th else 3, depth=6 if th else 5,
         alphabet=[("sub", A, "f_ne"), ("sub", A, "f_type"), ("sub", A, "f_cam"), ("sub", B, "all"), ("sub", B, "m2"),
                   ("add", "camA"), ("add", "camC"), ("add", "vamA"), ("attend",), ("adv", 1), ("unsub", A, 0)])
+    types2 = dict(
+        name="type_overlap", setup=base + (("regc", A), ("regc", B)), max_subs=3 if th else 2, max_adds=3, depth=6 if th else 5,
+        alphabet=[("sub", A, "t_cam"), ("sub", B, "t_vam"), ("sub", A, "t_both"), ("sub", A, "t_cam_f"), ("sub", B, "t_vam_f"),
+                  ("add", "camA"), ("add", "camC"), ("add", "vamA"), ("attend",)])
     filter2 = dict(
         name="two_statement_filter", setup=base + (("regc", A),), max_subs=2, max_adds=4 if th else 3, depth=6 if th else 5,
         alphabet=[("sub", A, "f2_or"), ("sub", A, "f2_and"), ("sub", A, "f2_or_m2"), ("sub", A, "f2_or_rev"),
@@ -454,7 +464,7 @@ def parts(tier):
     validation = dict(
         name="validation", setup=base + (("add", "camA"),), max_subs=2, max_adds=1, depth=4 if th else 3,
         alphabet=[("regc", A), ("deregc", A), ("attend",), ("adv", 1)] + [("sub", A, v) for v in VALIDATION])
-    return [cadence, isolation, filters, order2, filter2, validation]
+    return [cadence, isolation, filters, order2, filter2, types2, validation]
 
 
 def _mk(name, setup, alphabet, max_subs, max_adds, seed):
